@@ -326,7 +326,8 @@ class LocationTable:
         with self.loc_t_lock:
             self.loc_t = {
                 gn: entry for gn, entry in self.loc_t.items()
-                if (current_time - entry.position_vector.tst) <= self.mib.itsGnLifetimeLocTE * 1000
+                if not current_time > entry.position_vector.tst
+                or (current_time - entry.position_vector.tst) <= self.mib.itsGnLifetimeLocTE * 1000
             }
 
     def new_shb_packet(
